@@ -34,13 +34,15 @@ PROPS["C12"] = dict(
 
 PROPS["C01"] = dict(
     level="exploration",
-    technique="rapidcheck-generated TLS sessions (Bear<->Bear, Bear<->OpenSSL both ways) with generated transport schedules; oracles: running prefix check, parameter/key-export agreement, independent wiretap record codec; suite x version x layout enumerator",
+    technique="rapidcheck-generated TLS sessions (Bear<->Bear, Bear<->OpenSSL and Bear<->mbedTLS both ways) with generated transport schedules; oracles: running prefix check, parameter/key-export agreement, independent wiretap record codec; suite x version x layout enumerator",
     rule=("case = (pairing, suite, version, server key kind, per-side implementation set / buffer layout / fragment class, transport chunk policies "
           "incl. 1-byte and header-splitting, application script with write sizes around fragment boundaries, closer). non-trivial = handshake "
           "completed, >= 1 application byte in each direction and >= 1 transport chunk boundary strictly inside a record; distinct = "
-          "(pairing, suite, version, key, client esp/layout/class, server esp/layout/class, payload residue classes)"),
+          "(pairing, suite, version, key, client esp/layout/class, server esp/layout/class, payload residue classes)"
+          " Added pairings: Bear client <-> mbedTLS server and mbedTLS client (optionally requesting a maximum fragment length) <-> Bear server."),
     assumptions=["OpenSSL 3.0 libssl is a correct independent TLS 1.0-1.2 peer for the 28 suites it shares with BearSSL",
-                 "3DES and static-ECDH suites are checked Bear<->Bear plus the independent wiretap codec only (no foreign handshake implementation speaks them here)",
+                 "mbedTLS 2.28 is a correct independent peer for the suites it shares (incl. static ECDH and 3DES); it neither reassembles nor splits handshake messages, so in its pairings the BearSSL buffers hold the certificate flight in one record",
+                 "the exporter is compared in one of three forms per case (16-byte context, context of length zero, no context)",
                  "OpenSSL EVP primitives used by the wiretap codec are correct"],
     targets=[dict(name="c01_session", src="c01_session.cpp", flavour="san", libs=SSL_LIBS + MBED_LIBS, noseed=True)],
     quick=[("c01_session", "enum", dict(shards=16)),
@@ -59,7 +61,8 @@ PROPS["C02"] = dict(
           "with the real keys by the independent codec (every legal CBC padding length = positive control, every wrong padding byte, every wrong "
           "MAC/tag byte, every lying padding-length byte, wrong sequence number / type / version in MAC input, inadmissible record lengths). "
           "non-trivial = every evaluation (the victim has accepted the genuine handshake and the stream prefix); distinct = (suite, version, esp, "
-          "victim, layout, fault class, record index, position)"),
+          "victim, layout, fault class, record index, position)"
+          " Added: for crafted AEAD/CBC records the victim's 64-bit incoming sequence number is fast-forwarded by 2^k (k = 8..56) at a record boundary: the record made for n+2^k must be accepted (control) and record n - a replay from 2^k records ago - refused at once."),
     assumptions=["OpenSSL EVP primitives used by the wiretap codec are correct",
                  "single-fault model: one edit per replay (adaptive multi-fault attacks and timing are out of scope, see C08)"],
     targets=[dict(name="c02_tamper", src="c02_tamper.cpp", flavour="san", libs=SSL_LIBS, noseed=True)],
@@ -78,7 +81,8 @@ PROPS["C20"] = dict(
           "mode with 0..3 renegotiations by generated initiators, every record authenticated by the independent wiretap with sequence numbers "
           "from 0 per key change, explicit nonces == counter, explicit CBC IVs pairwise distinct; (c) 3..5 connections with pairwise distinct "
           "seeds (random / one-bit / length-only differences) compared field by field, plus an equal-seed pair compared byte by byte. "
-          "non-trivial = gate histories, sessions with >= 1 key change beyond the first, seed pairs; distinct by their parameters"),
+          "non-trivial = gate histories, sessions with >= 1 key change beyond the first, seed pairs; distinct by their parameters"
+          " Added: a client context reused for 2..4 connections while the application adds / removes SHA-256 or SHA-384 in between: every ClientHello random differs between two seeds and between connections."),
     assumptions=["quality of the entropy source itself is out of scope", "ESP8266 hardware RNG seeder cannot be compiled here",
                  "the /dev/urandom seeder is exercised in a build where it is the only system seeder and its open/read/close are routed to the harness (scripted short reads, EINTR, errors, end of file)"],
     targets=[dict(name="c20_random", src="c20_random.cpp", flavour="san", libs=SSL_LIBS, noseed=True),
@@ -103,7 +107,8 @@ PROPS["C06"] = dict(
           "recvapp_ack k, sendrec->wire k, wire->recvrec k with k in {1,2,half,all-1,all}; flush(0|1); close; renegotiate; ordinary pumping). "
           "The invariant set is asserted after every engine call. non-trivial = sequence with >= 1 partial acknowledgement and >= 1 shared-buffer "
           "mode switch or close/renegotiate; distinct = distinct hashes of the engine registers of both endpoints visited (random walks) and "
-          "distinct register states reached by the exhaustive explorer"),
+          "distinct register states reached by the exhaustive explorer"
+          " Added: in histories where nobody closed, renegotiated or tampered, no call may leave an engine closed (an engine that fails on its own loses the bytes it holds)."),
     assumptions=["only API-legal calls are generated (never ack 0, never more than offered)",
                  "histories matching the two listed known findings are constructed away and counted (excluded_by_construction); directed probes replay them"],
     targets=[dict(name="c06_state", src="c06_state.cpp", flavour="san", libs=SSL_LIBS, noseed=True),
@@ -126,8 +131,9 @@ PROPS["C19"] = dict(
           "injected towards either side in the clear during the handshake, in the data phase, or after the victim's own close; 1..3 renegotiation "
           "requests by either side with BR_OPT_NO_RENEGOTIATION on either side. non-trivial = the event fell inside a data exchange (bytes written) "
           "/ an injected alert / a cut before everything had ended; distinct by (configuration, event kind, phase, position class). "
-          "c19_sslio: histories of br_sslio_write_all/flush/read/close over callbacks returning short counts and, at a generated call, -1"),
-    assumptions=["peers without RFC 5746 support are not simulated (both endpoints are BearSSL); declined renegotiation is exercised through BR_OPT_NO_RENEGOTIATION",
+          "c19_sslio: histories of br_sslio_write_all/flush/read/close over callbacks returning short counts and, at a generated call, -1"
+          " Added: renegotiation with mbedTLS 2.28 in either role (BearSSL asks / the peer asks / the peer asks and BearSSL has BR_OPT_NO_RENEGOTIATION / both in turn) at quiescent points: key changes counted on the wire, BearSSL's hello bound to the previous Finished values, one warning per declined request; c19_sslio: the transport failure is also placed at the k-th callback inside br_sslio_close()."),
+    assumptions=["peers without RFC 5746 support are not simulated; declined renegotiation is exercised through BR_OPT_NO_RENEGOTIATION; renegotiation with a foreign stack (mbedTLS 2.28, both roles) is exercised at quiescent points only, because both stacks refuse application data that crosses a renegotiation",
                  "documented upstream behaviours are not failures: data arriving during a renegotiation is refused with BR_ERR_UNEXPECTED, a received no_renegotiation is fatal for the receiver",
                  "known finding F4 (client renegotiation with unflushed plaintext) is constructed away and counted"],
     targets=[dict(name="c19_closure", src="c19_closure.cpp", flavour="san", libs=SSL_LIBS + MBED_LIBS, noseed=True),
@@ -186,7 +192,8 @@ PROPS["C14"] = dict(
           "message over up to 4 run calls incl. empty calls, first unrelated message on the same context, EAX pre-/post-AAD saved state, one "
           "generated bit flip in nonce / AAD / ciphertext / tag) or a br_ccm_reset parameter probe (nonce 0..19, tag 0..19, declared length "
           "around 2^16 / 2^24). non-trivial = AAD and message non-empty and at least one of them split; distinct = (mode, impl, key, nonce len, "
-          "tag len, length residues, split shapes, shortcut)"),
+          "tag len, length residues, split shapes, shortcut)"
+          " Added: decryption with the generated split must return the message, pass check_tag and compute the reference tag (CCM MACs the plaintext)."),
     assumptions=["OpenSSL 3.0 EVP AES-GCM, AES-CCM, CMAC and AES-ECB are correct", "CCM with declared lengths different from the injected ones is undocumented and not generated"],
     targets=[dict(name="c14_aead", src="c14_aead.cpp", flavour="san", libs=CRYPTO)],
     quick=[("c14_aead", "enum", dict(shards=8)),
@@ -243,7 +250,8 @@ PROPS["C10"] = dict(
           "orders, generated leading zero bytes on every field; hash; message / salt / label lengths over their admissible range incl. maxima; one "
           "generated defect: value >= n, wrong length, even/zero modulus, altered padding or DigestInfo byte, short FF run, BER length, wrong OID, "
           "wrong block type, PSS trailer/top bits/salt length, OAEP first byte/label/EM byte). non-trivial = every case on a key >= 512 bits; "
-          "distinct = (operation, key, hash, length class, defect class, implementation)"),
+          "distinct = (operation, key, hash, length class, defect class, implementation)"
+          " Added: PKCS#1 v1.5 signing with GMP-generated keys of every byte and bit length around the smallest modulus that holds 00 01 FF{8} 00 DigestInfo for SHA-384/512: sign succeeds exactly when the block fits (then equals OpenSSL), blocks with fewer than eight FF bytes are refused by every verifier."),
     assumptions=["GMP and OpenSSL 3.0 are correct", "compute_pubexp / compute_privexp are documented for factors equal to 3 mod 4 (keys made by the library's own generator): tested on generated keys only",
                  "4096-bit key generation only in thorough mode (cost)"],
     targets=[dict(name="c10_rsa", src="c10_rsa.cpp", flavour="san", libs=["-lcrypto", "-lgmp"])],
@@ -261,7 +269,8 @@ PROPS["C11"] = dict(
           "u >= p, low order, top bit set, short scalars; all implementations agree and match OpenSSL), ECDSA (signer i15/i31/default x EC impl, "
           "verifier i15/i31/default x EC impl, six hashes, key classes; equals RFC 6979 value; verifies with OpenSSL and here; raw/ASN.1 "
           "conversions equal minimal DER; ten negative mutations compared with OpenSSL's verdict), ASN.1 converter on arbitrary integers and "
-          "malformed DER, key generation. distinct = (kind, impl, curve, classes)"),
+          "malformed DER, key generation. distinct = (kind, impl, curve, classes)"
+          " Added: encodings with a coordinate not reduced modulo p (x+p for generated small-abscissa points, y+p for the P-256 point with y = 1 and any P-521 point) must be refused; ECDSA signatures constructed backwards so that x(R) lies in [n, p-1] must verify with every verifier x implementation."),
     assumptions=["OpenSSL 3.0 EC / X25519 / ECDSA are correct", "zero or >= n multipliers are never generated for mul/mulgen/muladd (result documented as indeterminate)",
                  "for 32-byte Curve25519 inputs no rejection is asserted (every string is a valid u)"],
     targets=[dict(name="c11_ec", src="c11_ec.cpp", flavour="san", libs=["-lcrypto"])],
@@ -280,7 +289,8 @@ PROPS["C18"] = dict(
           "PEM grammar (1..4 objects, LF/CRLF mixed, junk and blank lines, whitespace, malformed objects with a bad character or data after "
           "padding, truncated last object), public keys (RSA / EC SubjectPublicKeyInfo and raw RSAPublicKey vs the certificate decoder). "
           "non-trivial = payload longer than one line, key with leading-zero/high-bit component, or malformed PEM with >= 1 valid line before the "
-          "defect / multi-object file; distinct = (codec, key/payload class, flags, defect class)"),
+          "defect / multi-object file; distinct = (codec, key/payload class, flags, defect class)"
+          " Added: in-place br_pem_encode with the source at the end, at the start, under the header line or at a generated offset of the destination."),
     assumptions=["OpenSSL 3.0 encoders are correct", "OpenSSL always includes the public key in PKCS#8 EC keys: the no-public-key PKCS#8 form is only round-tripped",
                  "known findings F2 (EC point prefix) and F3 (raw RSAPublicKey) are compared modulo the listed difference and counted as excluded"],
     targets=[dict(name="c18_codec", src="c18_codec.cpp", flavour="san", libs=["-lcrypto", "-lgmp"])],
@@ -363,7 +373,8 @@ PROPS["C03"] = dict(
           "M2: client narrowed from the full profile to 1..3 suites x forced suite (stale slot / any other); M3: 9 suites x validating side x 13 verdicts x 7 "
           "key sources x 5 usage masks, with the exact-chain / exact-name observation and the positive expectation when everything fits. "
           "non-trivial = every faulted evaluation (the prefix of a real handshake was accepted); distinct = (kind, direction, record, offset, mask) / "
-          "(kind, direction, edit, message) / scenario description"),
+          "(kind, direction, edit, message) / scenario description"
+          " Added (M7): a server that presents the fixture chain without holding its key (policy handler of the harness) signs the ServerKeyExchange with random bytes, zeros or the pair (Qx, Qx) valid for the hash value zero, naming a hash function the client has or one it was configured without; the client must never become ready; control: the genuine server with the same reduced client."),
     assumptions=["single-fault model (one alteration per connection)",
                  "record headers are not authenticated by the handshake and are not altered here (C02 / C05 cover them)",
                  "a message identical in both handshakes (ServerHelloDone) is not a substitution and is counted as excluded",
@@ -385,7 +396,8 @@ PROPS["C04"] = dict(
           "leaf, non-CA anchor named as an issuer, name differing by type / case / text, two anchors for one name, decoys; static or on demand); server name "
           "(random labels, random case, wildcard patterns, embedded NUL, several names, none); hash subsets; minimum RSA size; 0, 1 or 2 defects from 24 classes. "
           "Checked: accept <=> reference accepts; with <= 1 defect the error code equals the documented one; on accept the returned key bytes, usages and the "
-          "CN / dNSName name elements equal the leaf's. non-trivial = any non-empty chain; distinct = the description string"),
+          "CN / dNSName name elements equal the leaf's. non-trivial = any non-empty chain; distinct = the description string"
+          " Added: every case is repeated on a context that validated something else before (same chain, abandoned chain, reversed chain, empty chain) and must give the same verdict, key and name elements; altered signatures also take the forms cleartext padded block one byte longer/shorter than the modulus, last byte dropped, zero byte prepended."),
     assumptions=["OpenSSL signatures are correct (and are cross-checked against the abstract signature relation in every case)",
                  "excluded by construction: SAN extensions without any dNSName, fractional or zoned times, query-side wildcards, name constraints, revocation",
                  "two-defect chains are compared on accept/reject only (code differences are counted in the class histogram)",
@@ -418,7 +430,8 @@ PROPS["C08"] = dict(
           "check_tag with right and wrong tags; CBC record decryption over AES/3DES x SHA-1/256/384 x TLS 1.0-1.2 x padding lengths x {valid, wrong padding byte, wrong "
           "MAC byte, lying padding length, altered plaintext}; GCM / ChaCha20-Poly1305 / CCM record decryption valid and altered). Secrets = key material, scalars, "
           "nonces, plaintext, decrypted padding, computed tags, validity. non-trivial = the call ran under valgrind and its output still carried taint; distinct = "
-          "(entry point, implementation, public parameters); optimisation level -Os in quick, -O0/-Os/-O2 in thorough"),
+          "(entry point, implementation, public parameters); optimisation level -Os in quick, -O0/-Os/-O2 in thorough"
+          " Added: the server key-exchange step through the do_keyx method of the single_ec and single_rsa policy handlers (valid / off-curve / short client point; valid / four invalid paddings), private key tainted."),
     assumptions=["memcheck definedness propagation is an over-approximation of 'depends on a secret' for branches and addresses; compiler-generated conditional moves are (correctly) not counted as branches",
                  "only x86-64 gcc code generation is observed, not the Xtensa compiler of the port; micro-architectural effects (variable-time multipliers) are out of scope",
                  "values the source itself declares public are declassified by the guarded BR_VERIF_PUBLIC marks (hook H3): final accept/reject of a record, announced factor bit lengths, validated OAEP message length, RFC 6979 candidate test",
